@@ -178,6 +178,75 @@ func cmdWorkScan(args []string) error {
 			run("IRVRJNAL key pointer beyond memory", k, b.Bytes(), nil)
 		}
 	}
+	// (7) the inherited instructions that copy, hash, log or hand over a region of attacker-chosen size 2^k: whatever they
+	//     allocate or copy must have been paid for (memory expansion and per-word charges grow with the size), on the whole
+	//     transaction: allocated bytes <= 256 KiB + 8 x gas used.  Beyond ~2^21 bytes 30M gas cannot pay: out of gas
+	//     BEFORE anything is allocated.
+	runTx := func(what string, fork string, k int, code []byte) {
+		env := impl.NewEnv(impl.Opts{Fork: fork})
+		env.SetCode(self, code)
+		env.SetCode(common.HexToAddress("0xdead"), []byte{0x00})
+		env.Prepare(&self)
+		var ms0, ms1 runtime.MemStats
+		var err error
+		var left uint64
+		const gas = 30_000_000
+		runtime.GC()
+		runtime.ReadMemStats(&ms0)
+		pan := impl.Guard(func() {
+			_, left, err = env.EVM.Call(context.Background(), vm.AccountRef(exCaller), self, make([]byte, 64), gas, big.NewInt(0))
+		})
+		runtime.ReadMemStats(&ms1)
+		cs := workCase{Idx: len(cases), What: what + " (" + fork + ")", K: k, Alloc: ms1.TotalAlloc - ms0.TotalAlloc, GasStep: gas - left}
+		switch {
+		case pan != "":
+			cs.Result = "panic: " + pan
+			cs.Oracle = append(cs.Oracle, "C20: panic "+pan)
+		case err != nil:
+			cs.Result = "err: " + err.Error()
+		default:
+			cs.Result = "ok"
+		}
+		if cs.Alloc > 1<<18+8*cs.GasStep {
+			cs.Oracle = append(cs.Oracle, fmt.Sprintf("C20: a transaction whose only sizeable instruction is %s with a size operand of 2^%d allocated %d bytes for %d gas", what, k, cs.Alloc, cs.GasStep))
+		}
+		stats["what:"+what]++
+		cases = append(cases, cs)
+	}
+	ks := []int{12, 16, 20, 22, 24, 26}
+	if c.tier == "thorough" {
+		ks = []int{10, 12, 14, 16, 18, 19, 20, 21, 22, 23, 24, 26, 28, 32, 40, 63}
+	}
+	for _, fork := range []string{"Berlin", "Cancun"} {
+		for _, k := range ks {
+			size := new(big.Int).Lsh(big.NewInt(1), uint(k))
+			sz := func(b *asm.B) *asm.B { return b.PushBig(size) }
+			mk := func(f func(b *asm.B)) []byte { b := asm.New(); f(b); b.Op(asm.STOP); return b.Bytes() }
+			runTx("CALLDATACOPY", fork, k, mk(func(b *asm.B) { sz(b).Push(0).Push(0).Op(asm.CALLDATACOPY) }))
+			runTx("CODECOPY", fork, k, mk(func(b *asm.B) { sz(b).Push(0).Push(0).Op(asm.CODECOPY) }))
+			runTx("EXTCODECOPY of a cold account", fork, k, mk(func(b *asm.B) { sz(b).Push(0).Push(0).PushAddr(common.HexToAddress("0xdead")).Op(0x3c) }))
+			runTx("EXTCODECOPY of a warm account", fork, k, mk(func(b *asm.B) { sz(b).Push(0).Push(0).Op(0x30).Op(0x3c) }))
+			runTx("RETURNDATACOPY", fork, k, mk(func(b *asm.B) { sz(b).Push(0).Push(0).Op(asm.RETURNDATACOPY) }))
+			runTx("KECCAK256", fork, k, mk(func(b *asm.B) { sz(b).Push(0).Op(asm.KECCAK256).Op(asm.POP) }))
+			runTx("LOG0", fork, k, mk(func(b *asm.B) { sz(b).Push(0).Op(0xa0) }))
+			runTx("MLOAD at offset", fork, k, mk(func(b *asm.B) { sz(b).Op(asm.MLOAD).Op(asm.POP) }))
+			runTx("MSTORE8 at offset", fork, k, mk(func(b *asm.B) { b.Push(1); sz(b).Op(asm.MSTORE8) }))
+			runTx("CALL input region", fork, k, mk(func(b *asm.B) {
+				b.Push(0).Push(0)
+				sz(b).Push(0).Push(0).PushAddr(common.HexToAddress("0xdead")).Op(asm.GAS).Op(asm.CALL).Op(asm.POP)
+			}))
+			runTx("CALL output region", fork, k, mk(func(b *asm.B) {
+				sz(b).Push(0).Push(0).Push(0).Push(0).PushAddr(common.HexToAddress("0xdead")).Op(asm.GAS).Op(asm.CALL).Op(asm.POP)
+			}))
+			runTx("STATICCALL to the identity precompile", fork, k, mk(func(b *asm.B) { b.Push(0).Push(0); sz(b).Push(0).Push(4).Op(asm.GAS).Op(asm.STATICCALL).Op(asm.POP) }))
+			runTx("CREATE init code region", fork, k, mk(func(b *asm.B) { sz(b).Push(0).Push(0).Op(asm.CREATE).Op(asm.POP) }))
+			runTx("RETURN region", fork, k, func() []byte { b := asm.New(); sz(b).Push(0).Op(asm.RETURN); return b.Bytes() }())
+			runTx("REVERT region", fork, k, func() []byte { b := asm.New(); sz(b).Push(0).Op(asm.REVERT); return b.Bytes() }())
+			if fork == "Cancun" {
+				runTx("MCOPY", fork, k, mk(func(b *asm.B) { sz(b).Push(0).Push(0).Op(asm.MCOPY) }))
+			}
+		}
+	}
 	if err := writeJSON(c.out, "cases.json", cases); err != nil {
 		return err
 	}
